@@ -83,4 +83,21 @@ def authGateOk (sc : Script) (established : Bool) (ws : List Write) : Bool :=
   let afterAuth := (ws.dropWhile (fun w => w.kind != .auth)).drop 1
   sc.authReply == .success || !(ws.any (fun w => w.kind == .auth)) || (!established && afterAuth.isEmpty)
 
+/-- the features in force when the client authenticates: those of the stream restarted after TLS when TLS was
+negotiated, else the first ones -/
+def featuresAtAuth (sc : Script) : Option Features :=
+  match sc.feat1 with
+  | none => none
+  | some f1 => if tlsNegotiated f1 sc then (if sc.open2 then sc.feat2 else none) else some f1
+
+/-- "names a mechanism that the server advertised ... if there is no common mechanism nothing is sent": an `<auth/>`
+is written only when the features in force offer a mechanism the credential supports -/
+def mechGateOk (sc : Script) (ws : List Write) : Bool :=
+  !(ws.any (fun w => w.kind == .auth)) ||
+  (match featuresAtAuth sc with | some f => f.mech | none => false)
+
+/-- "a `<failure/>` reply is a permanent error": judged on the observed outcome -/
+def failurePermanentOk (sc : Script) (ws : List Write) (failedPermanently : Bool) : Bool :=
+  !(sc.authReply == .failure && ws.any (fun w => w.kind == .auth)) || failedPermanently
+
 end XmppVerif.Spec.Neg
